@@ -4,7 +4,7 @@ from __future__ import annotations
 
 import ast
 
-from ..core import AnalysisError, Check, norm, strip_docstring, walk_no_nested
+from ..core import AnalysisError, Check, expand_locals, norm, single_defs, strip_docstring, walk_no_nested
 from ..interp import Sym, SymInterp
 from ..timeq import ABS
 from ..variants import Variant
@@ -52,6 +52,8 @@ class C14(Check):
         fn = init.func("make_protocol")
         q = "make_protocol"
         loops = [s for s in strip_docstring(fn.body) if isinstance(s, ast.For)]
+        if not loops and self.q1_fold(init, fn):
+            return
         if len(loops) != 1 or not isinstance(loops[0].target, ast.Tuple):
             raise AnalysisError("make_protocol: loop over (duration, values) steps not recognised")
         loop = loops[0]
@@ -82,6 +84,41 @@ class C14(Check):
             self.holds("Q1", INIT, q, "starts-at-zero-unfiltered", inits[0], "accumulator starts at 0; every step is consumed")
         else:
             self.violated("Q1", INIT, q, "starts-at-zero-unfiltered", fn, "accumulator does not start at zero or steps are filtered")
+
+    def q1_fold(self, init, fn) -> bool:
+        """make_protocol written as a fold: accumulate(steps, F, initial=(Timedelta(0), ..)) with the seed dropped."""
+        q = "make_protocol"
+        acc = [c for c in ast.walk(fn) if isinstance(c, ast.Call) and norm(c.func).split(".")[-1] == "accumulate" and len(c.args) == 2]
+        if len(acc) != 1 or not isinstance(acc[0].args[1], ast.Name) or acc[0].args[1].id not in init.functions:
+            return False
+        c = acc[0]
+        F = init.functions[c.args[1].id]
+        kw = {k.arg: k.value for k in c.keywords}
+        seed = kw.get("initial")
+        steps = norm(c.args[0])
+        zero = isinstance(seed, ast.Tuple) and len(seed.elts) == 2 and norm(seed.elts[0]) in ("pd.Timedelta(0)", "pd.Timedelta(seconds=0)", "pd.Timedelta(0, unit='s')")
+        params = [a.arg for a in F.args.args]
+        rets = [st for st, _ in SymInterp().run_function(F, Sym()).returns]
+        shape = False
+        if len(params) == 2 and len(rets) == 1:
+            rv = [e[1] for e in rets[0].events if e[0] == "return"]
+            prev, step = params
+            shape = bool(rv) and rv[-1].replace(" ", "") in (f"({prev}[0]+pd.Timedelta(seconds={step}[0]),{step}[1])", f"(pd.Timedelta(seconds={step}[0])+{prev}[0],{step}[1])")
+        defs = single_defs(fn)
+        # the seed element must be dropped, everything else kept, in order
+        uses = [n for n in ast.walk(fn) if isinstance(n, ast.Call) and norm(n.func).split(".")[-1] == "islice" and len(n.args) == 3 and norm(expand_locals(n.args[0], defs)) == norm(c)
+                and norm(n.args[1]) == "1" and norm(n.args[2]) == "None"]
+        if zero and shape and steps == [a.arg for a in fn.args.args][0]:
+            self.holds("Q1", INIT, q, "accumulate-then-store", c, "fold over the steps: key = previous end + this step's duration, value = this step's values")
+            self.holds("Q1", INIT, q, "stores-step-values", c, "the step's own parameter dict is stored")
+        else:
+            self.violated("Q1", INIT, q, "accumulate-then-store", c, "the fold over the steps does not key each step by the time accumulated including that step",
+                          witness="make_protocol([(1,{'k':1}),(2,{'k':2})]) has index [0s,1s] instead of [1s,3s]")
+        if zero and uses:
+            self.holds("Q1", INIT, q, "starts-at-zero-unfiltered", uses[0], "accumulator seeded with 0; only the seed element is dropped")
+        else:
+            self.violated("Q1", INIT, q, "starts-at-zero-unfiltered", c, "accumulator does not start at zero or steps are filtered")
+        return True
 
     def q2(self, sim, name: str) -> None:
         """Per-iteration behaviour of a protocol runner, from two-iteration path summaries (values staged in locals, helper
